@@ -128,7 +128,15 @@ def _work(args):
             # misbehaving factories at the first position
             p = pos[0]
             want = tuple(c.tensors[p].shape)
-            wrongs = [("wrong type", lambda sh: [[0.0]]), ("extra unit axis", lambda sh, t=c.tensors[p]: t.copy()[..., None]), ("leading unit axis", lambda sh, t=c.tensors[p]: t.copy()[None])]
+            class _Duck:  # not a tensor of the backend, but it has the expected .shape and converts to an array
+                def __init__(self, a):
+                    self.a, self.shape = a, a.shape
+
+                def __array__(self, *args, **kw):
+                    return self.a
+
+            wrongs = [("wrong type", lambda sh: [[0.0]]), ("wrong type but the expected .shape (duck object)", lambda sh, t=c.tensors[p]: _Duck(t.copy())),
+                      ("wrong type but the expected .shape (memoryview)", lambda sh, t=c.tensors[p]: memoryview(np.ascontiguousarray(t))), ("extra unit axis", lambda sh, t=c.tensors[p]: t.copy()[..., None]), ("leading unit axis", lambda sh, t=c.tensors[p]: t.copy()[None])]
             if len(want) >= 2 and want != want[::-1]:
                 wrongs.append(("transposed shape", lambda sh, t=c.tensors[p]: np.ascontiguousarray(t.T)))
             if len(want) >= 2 and want == want[::-1] and want[0] > 1:
